@@ -55,9 +55,11 @@ def call_value(I, callee, args, kwargs, e, fr):
     if isinstance(callee, Bound):
         return call_method(I, callee, args, kwargs, e, fr)
     if isinstance(callee, Sym):
-        # calling an opaque value (lambda, local class, np.int64 alias ...)
-        if callee.tag == "localfunc" or callee.tag == "lambda":
-            return I.derive("call", callee, *args)
+        # calling an opaque value (lambda, local class, np.int64 alias, dynamically selected method ...)
+        for a in list(args) + list(kwargs.values()):
+            o = I.obj(a)
+            if o is not None and o.kind == "circuit":
+                o.term = t_seq(o.term, ("unknown", f"passed to a callee that is not statically known at {where(fr, e)}"))
         return I.derive("call", callee, *args)
     raise Unsupported(f"call of {callee!r} at {pyfacts.where(fr.func, e)}")
 
@@ -278,6 +280,11 @@ def call_builtin(I, name, args, kwargs, e, fr):
     if name in ("getattr",):
         if isinstance(args[1], Const):
             return I.getattr(args[0], args[1].v, e, fr)
+        o = I.obj(args[0])
+        if o is not None and o.kind == "circuit":
+            # a method chosen at run time may append any gate
+            o.term = t_seq(o.term, ("unknown", f"method of the circuit selected dynamically via getattr at {where(fr, e)}"))
+        return I.derive("builtin:getattr", *args)
     if name in ("type",):
         return Sym("type", a0 if not isinstance(a0, Ref) else I.sym_of(a0))
     if name in ("super",):
